@@ -18,9 +18,17 @@ INSTR_POOL = ["piano", "violin", "flute", "cello", "trumpet", "piano", "violin",
 SIGS = [(4, 4), (3, 4), (6, 8), (2, 2), (5, 4)]
 
 
-def rand_midi_score(rng, offgrid=False):
+BIG_POOL = ["piano", "violin", "flute", "cello", "trumpet", "church_organ", "clarinet", "oboe", "harp", "trombone", "tuba", "viola",
+            "contrabass", "french_horn", "bassoon", "piccolo", "acoustic_guitar", "vibraphone", "marimba", "harpsichord"]
+
+
+def rand_midi_score(rng, offgrid=False, many=False):
     n = rng.randrange(1, 5)
     names = []
+    if many:
+        # an orchestra: 8..14 different programs, so that the channel numbering has to step over the drum channel
+        names = [f"{b}__0" for b in rng.sample(BIG_POOL, rng.randrange(8, 15))]
+        n = 0
     for _ in range(n):
         base = rng.choice(INSTR_POOL)
         k = sum(1 for x in names if x.startswith(base + "__"))
@@ -82,7 +90,16 @@ class MidiFile_(Stream):
 
     def gen(self, rng, n):
         for i in range(n):
-            yield {"score": rand_midi_score(rng, offgrid=(i % 4 == 3)), "tempo": rng.choice([120, 60, 100, 40, 200, 77]),
+            sc = rand_midi_score(rng, offgrid=(i % 4 == 3), many=(i % 12 == 5))
+            # cases stay inside the statement's guard (a pitch outside 0..127 makes mido raise, which the model does not describe)
+            for _ in range(20):
+                try:
+                    if self.in_guard(None, sg.spec_sounding(sc)):
+                        break
+                except Exception:
+                    pass
+                sc = rand_midi_score(rng, offgrid=(i % 4 == 3), many=(i % 12 == 5))
+            yield {"score": sc, "tempo": rng.choice([120, 60, 100, 40, 200, 77]),
                    "sig": list(rng.choice(SIGS))}
 
     def impl(self, case):
@@ -188,7 +205,9 @@ class MidiFile_(Stream):
 
     def gm(self):
         """General MIDI level 1 program numbers (0-based) for the instrument names the generator uses"""
-        return {"piano": 0, "violin": 40, "flute": 73, "cello": 42, "trumpet": 56, "church_organ": 19}
+        return {"piano": 0, "violin": 40, "flute": 73, "cello": 42, "trumpet": 56, "church_organ": 19, "clarinet": 71, "oboe": 68, "harp": 46,
+                "trombone": 57, "tuba": 58, "viola": 41, "contrabass": 43, "french_horn": 60, "bassoon": 70, "piccolo": 72,
+                "acoustic_guitar": 24, "vibraphone": 11, "marimba": 12, "harpsichord": 6}
 
     def nontrivial(self, case, r):
         return len(self.names(case)) > 1
